@@ -528,7 +528,10 @@ class RandomProgram(NetExec):
             # ... and only channel objects that are still open at the sender travel
             others = [c for c in ids if c != cid and (c in peer_reg or c not in peer_ever)
                       and not self.get_handle(side, c)._closed]
-            if others and w.get("transfer", True) and self.get_handle(peer, cid) is not None:
+            # (the receiving end may also be a callback whose channel object was dropped: the callback lives on and the carried
+            # channel must still arrive through it)
+            peer_can_take = self.get_handle(peer, cid) is not None or cid in self.gw[peer]._channelfactory._callbacks
+            if others and w.get("transfer", True) and peer_can_take:
                 c2 = r.choice(others)
                 return ["send %s %d %d %d" % (side, cid, self.newval(), c2), "deliver " + peer,
                         lambda: ("recv %s %d" % (peer, cid)) if self.get_handle(peer, cid) is not None else None]
@@ -554,7 +557,18 @@ class RandomProgram(NetExec):
                 end = ([still("finish %d %s" % (cid, "raise%d" % r.randint(1, 9) if err else "ret"))] if executing else
                        [still("close %s %d %s" % (side, cid, "e%d" % r.randint(1, 9) if err else "-")), still("isclosed %s %d" % (side, cid)),
                         still("send %s %d %d" % (side, cid, self.newval()))])
-                return (["setcb %s %d 1" % (peer, cid), lazy_drop] + [flush(side)] * 4 +
+                carry = []
+                if r.random() < 0.5 and w.get("transfer", True):
+                    # a channel travels to the callback whose channel object is gone (it must still arrive: D25)
+                    v2 = self.newval()
+
+                    def carry_op(s=side, cid=cid, v2=v2):
+                        mine = [c for c in self.h[s] if c != cid and not self.get_handle(s, c)._closed and not getattr(self.get_handle(s, c), "_executing", False)]
+                        if self.get_handle(s, cid) is None or not mine:
+                            return None
+                        return "send %s %d %d %d" % (s, cid, v2, max(mine))
+                    carry = ["new " + side, carry_op] + [flush(peer)] * 2
+                return (["setcb %s %d 1" % (peer, cid), lazy_drop] + [flush(side)] * 4 + carry +
                         [still("send %s %d %d" % (side, cid, self.newval()))] + end + [flush(peer)] * 4)
         if choice < 0.985 and w.get("cut", True):
             s2 = r.choice("AB")
